@@ -5,6 +5,7 @@ import (
 
 	"verifsim/hx"
 	"verifsim/simkern"
+	"verifsim/worlds/listenw"
 	"verifsim/worlds/pipew"
 
 	"github.com/Query-farm/vgi-rpc-go/vgirpc"
@@ -31,9 +32,13 @@ func C02(e *simkern.Env) {
 		sv = "3.4.5"
 	}
 	ops := pipew.GenOps(tp, pipew.GenCfg{MinOps: 1, MaxOps: maxOps, Bad: true, BadStream: true, FailBias: 5, InitFail: true,
-		Cancel: true, Cast: true, BadCast: true, WriteAhead: true, Levels: true, MaxTurns: 5, NonceBase: 1000, ServerVersion: sv})
+		Cancel: true, Cast: true, BadCast: true, WriteAhead: true, Levels: true, MaxTurns: 5, NonceBase: 1000, ServerVersion: sv, AfterCancel: true, ZeroRows: true})
 	e.Knob("server_protocol_version", sv)
 	kn := pipew.DrawKnobs(tp)
+	transport := tp.Pick(0, 0, 1, 2) // pipe, pipe, unix listener, tcp listener
+	pipeline := tp.Pick(0, 0, 1, 2)  // unary requests written ahead of the response being read
+	e.Knob("transport", []string{"pipe", "unix", "tcp"}[transport])
+	e.Knob("pipeline", pipeline)
 	e.Knob("frag", kn.Frag)
 	e.Knob("yield_on_write", kn.YieldOnWrite)
 	e.Knob("ops", len(ops))
@@ -47,8 +52,49 @@ func C02(e *simkern.Env) {
 				s.SetProtocolVersion(sv)
 			}
 		})
-		sess := &pipew.Session{Srv: srv, Ops: ops}
-		reason := pipew.RunSession(sim, sess, kn, 40000)
+		sess := &pipew.Session{Srv: srv, Ops: ops, Pipeline: pipeline}
+		var reason simkern.StopReason
+		if transport == 0 {
+			reason = pipew.RunSession(sim, sess, kn, 40000)
+		} else {
+			// the same history over the real RunUnix / RunTcp accept loop and
+			// per-connection serve loop, on a simulated listener
+			w, werr := listenw.New(sim)
+			if werr != nil {
+				e.Harness("listen world: %v", werr)
+				return
+			}
+			defer w.Close()
+			lt := sim.Spawn("listener", func() {
+				if transport == 1 {
+					_ = srv.RunUnix(w.SocketPath(), 0, nil)
+				} else {
+					_ = srv.RunTcp("127.0.0.1", 0, 0, nil)
+				}
+			})
+			sess.Sim = sim
+			sess.CanConnect = func() bool { return w.L != nil && !w.L.Closed }
+			sess.Connect = func() (*hx.Conn, error) {
+				rec, derr := w.Dial("c0", listenw.DialOpts{Frag: kn.Frag, YieldOnWrite: kn.YieldOnWrite})
+				if derr != nil {
+					return nil, derr
+				}
+				return rec.Client.(*hx.Conn), nil
+			}
+			sess.Start("c0")
+			reason, _ = sim.Run(simkern.RunOpts{MaxSteps: 60000, Done: sess.Done})
+			sim.Fault([]string{"", "transport-unix", "transport-tcp"}[transport])
+			// operator shutdown: the listener must come back once its connections are done
+			w.OperatorClose()
+			if r2, _ := sim.Run(simkern.RunOpts{MaxSteps: 20000, Done: lt.Done}); r2 == simkern.StopDone {
+				sess.ServerReturned = true
+			} else if reason == simkern.StopDone {
+				reason = r2
+			}
+		}
+		if pipeline > 0 {
+			sim.Fault("request-pipelining")
+		}
 		c02Judge(e, sess, reason)
 		e.Conclude(sim, reason, false)
 		e.Res.Nontrivial = len(ops) > 1 || kn.Frag > 0
@@ -178,11 +224,11 @@ func init() {
 	Registry["C02"] = &Info{
 		Run:   C02,
 		Level: "exploration",
-		Rule:  "each run draws a call history (1-8 calls quick, 1-24 thorough) mixing unary and stream calls with every failure the statement lists (missing method key, wrong/missing request version, 0/2 rows, unknown unary method, parameter mismatch on unary and stream methods, handler error/panic, stream-init failure incl. nil result, mid-stream error/panic/no-emit/double-emit/finish-on-exchange, client cancel, client abandon) plus transport faults (read fragmentation 1..64 bytes, write-side delay, client write-ahead); the scheduler interleaves the server and client tasks at every pipe read/write and woven yield; distinct = schedule fingerprint; non-trivial = more than one call or fragmentation on",
+		Rule:  "each run draws a call history (1-8 calls quick, 1-24 thorough) mixing unary and stream calls with every failure the statement lists (missing method key, wrong/missing request version, 0/2 rows, unknown unary method, parameter mismatch on unary and stream methods, handler error/panic, stream-init failure incl. nil result, mid-stream error/panic/no-emit/double-emit/finish-on-exchange, client cancel, client abandon) plus transport faults (read fragmentation 1..64 bytes, write-side delay, client write-ahead of stream inputs, inputs after a cancel batch, zero-row and non-castable inputs, unary requests pipelined 1-2 ahead); half of the runs use a simulated pipe, the others the real RunUnix / RunTcp accept loop on a simulated listener; the scheduler interleaves the server and client tasks at every pipe read/write and woven yield; distinct = schedule fingerprint; non-trivial = more than one call or fragmentation on",
 		Real:  []string{"vgirpc.Server.ServeWithContext / serveOne / serveUnary / serveStream / ReadRequest / wire writers", "arrow-go IPC"},
 		Stub:  []string{"duplex byte stream (hx.Pipe)", "protocol client written on arrow-go IPC", "scripted handlers and stream states"},
 		Quick: 1200, Thorough: 150000,
-		FaultKinds: []string{"read-fragmentation", "write-delay", "client-write-ahead", "client-cancel", "malformed-request"},
+		FaultKinds: []string{"read-fragmentation", "write-delay", "client-write-ahead", "client-cancel", "malformed-request", "request-pipelining", "transport-unix", "transport-tcp"},
 		Assumptions: []string{
 			"the client follows the documented discipline (writes the first input before reading; writes input EOS after an exception, EOS, cancel or when abandoning)",
 			"protocol-version-gate refusals are exercised under C10, not here",
